@@ -529,7 +529,10 @@ impl<'de, C> DeserializeSeed<'de> for DeserializeColumn<'de, C>
 where
     C: Component + Deserialize<'de>,
 {
-    type Value = (*mut C, usize);
+    // The column is returned as an owning `Vec<C>`, not as raw parts: a deserializer may still fail
+    // after the visitor has returned (for example when the input holds more elements than the
+    // declared length), in which case it drops the value, and with it the components.
+    type Value = Vec<C>;
 
     fn deserialize<D>(self, deserializer: D) -> Result<Self::Value, D::Error>
     where
@@ -543,7 +546,7 @@ where
         where
             C: Component + Deserialize<'de>,
         {
-            type Value = (*mut C, usize);
+            type Value = Vec<C>;
 
             fn expecting(&self, formatter: &mut fmt::Formatter) -> fmt::Result {
                 write!(
@@ -567,9 +570,7 @@ where
                     );
                 }
 
-                let mut v = ManuallyDrop::new(v);
-
-                Ok((v.as_mut_ptr(), v.capacity()))
+                Ok(v)
             }
         }
 
@@ -623,9 +624,14 @@ where
             where
                 A: SeqAccess<'de>,
             {
-                let entity_identifiers = seq
-                    .next_element_seed(DeserializeColumn::new(self.0.length))?
-                    .ok_or_else(|| de::Error::invalid_length(0, &self))?;
+                let mut entity_identifiers = ManuallyDrop::new(
+                    seq.next_element_seed(DeserializeColumn::new(self.0.length))?
+                        .ok_or_else(|| de::Error::invalid_length(0, &self))?,
+                );
+                let entity_identifiers = (
+                    entity_identifiers.as_mut_ptr(),
+                    entity_identifiers.capacity(),
+                );
 
                 let mut components = Vec::with_capacity(self.0.identifier.count());
                 let result =
